@@ -1621,6 +1621,15 @@ impl FrameHeader {
         offset: FrameOffset,
     ) -> Result<Self, VerifyError> {
         verify_block_size!("block_size", block_size)?;
+        verify_range!("block_size", block_size, 1..)?;
+        match offset {
+            FrameOffset::Frame(n) => {
+                verify_range!("offset (frame number)", u64::from(n), ..(1u64 << 31))?;
+            }
+            FrameOffset::StartSample(n) => {
+                verify_range!("offset (start sample)", n, ..(1u64 << 36))?;
+            }
+        }
         let block_size_spec = BlockSizeSpec::from_size(block_size as u16);
         let sample_size_spec =
             SampleSizeSpec::from_bits(bits_per_sample as u8).ok_or_else(|| {
